@@ -1,7 +1,6 @@
 (* C14 for datastruct/timerqueue.c: block accounting (see DS/PtrHeapAlloc.v for [acct]). *)
 From Coq Require Import NArith ZArith List Bool Arith Lia ZifyNat Permutation FMapPositive.
-From LCP Require Import Base.CheckedMem DS.AllocOracle DS.PtrHeap DS.PtrHeapProofs DS.PtrHeapOps
-  DS.PtrHeapAlloc DS.TimerQueue DS.TimerQueueProofs.
+From LCP Require Import Base.CheckedMem DS.AllocOracle DS.PtrHeap DS.PtrHeapProofs DS.PtrHeapOps DS.PtrHeapAlloc DS.TimerQueue DS.TimerQueueProofs.
 Import ListNotations.
 Local Open Scope res_scope.
 
